@@ -250,6 +250,31 @@ def locate(src, spec):
             kind, name, (' in /' + str(spec.get('impl')) + '/') if spec.get('impl') else '', len(found)))
     return found[0]
 
+def find_let_closure(src, outer, name):
+    """inside the fn item `outer`: the statement `let NAME = |PARAMS| { BODY };` -> (start, end, params, body_block)"""
+    toks = tokenize(src)
+    hits = []
+    for i, t in enumerate(toks):
+        if t.a < outer.body_open or t.b > outer.body_close:
+            continue
+        if t.kind == 'id' and t.text == 'let' and i + 3 < len(toks) and toks[i + 1].text == name and toks[i + 2].text == '=' \
+                and toks[i + 3].text == '|':
+            j = i + 4
+            while toks[j].text != '|':
+                if toks[j].kind == 'op' and toks[j].text in OPEN:
+                    j = match_close(toks, j)
+                j += 1
+            params = src[toks[i + 4].a:toks[j - 1].b] if j > i + 4 else ''
+            if toks[j + 1].text != '{':
+                raise ScanError('lost anchor: closure %s has no block body' % name)
+            k = match_close(toks, j + 1)
+            if toks[k + 1].text != ';':
+                raise ScanError('lost anchor: closure %s is not a plain let statement' % name)
+            hits.append((t.a, toks[k + 1].b, params, src[toks[j + 1].a:toks[k].b]))
+    if len(hits) != 1:
+        raise ScanError('lost anchor: closure %s in fn matched %d statements' % (name, len(hits)))
+    return hits[0]
+
 # --------------------------------------------------------------------------- inside a function
 
 class FnShape:
@@ -376,6 +401,41 @@ class FnShape:
         out.sort()
         return out
 
+    def match_arm_ends(self):
+        """offsets of the closing braces of the block-bodied arms of the first top-level `match` in the body"""
+        toks = self.toks
+        i = self.body_open_tok + 1
+        depth = 0
+        while i < self.body_close_tok:
+            t = toks[i]
+            if t.kind == 'op' and t.text in OPEN:
+                i = match_close(toks, i) + 1
+                continue
+            if t.kind == 'id' and t.text == 'match':
+                j = i + 1
+                while not (toks[j].kind == 'op' and toks[j].text == '{'):
+                    if toks[j].kind == 'op' and toks[j].text in ('(', '['):
+                        j = match_close(toks, j)
+                    j += 1
+                close = match_close(toks, j)
+                ends = []
+                k = j + 1
+                while k < close:
+                    if toks[k].text == '=>' and toks[k + 1].text == '{':
+                        e = match_close(toks, k + 1)
+                        ends.append(toks[e].a)
+                        k = e + 1
+                        continue
+                    if toks[k].kind == 'op' and toks[k].text in OPEN:
+                        k = match_close(toks, k) + 1
+                        continue
+                    k += 1
+                if not ends:
+                    raise ScanError('lost anchor: the match has no block-bodied arms')
+                return ends
+            i += 1
+        raise ScanError('lost anchor: no top-level match in the function body')
+
     def find_stmt(self, regex, nth=0):
         rx = re.compile(regex)
         hits = [s for s in self.stmts if rx.match(norm(self.text[s[0]:s[1]]))]
@@ -441,7 +501,20 @@ def pat_match(toks, i, pat):
     r = rec(i, 0)
     return (r, env) if r is not None else None
 
-def apply_rules(text, rules, log, where=''):
+def _subst_ident(text, old, new):
+    """replace the free identifier `old` by `new` (not field names / path segments)"""
+    toks = tokenize(text)
+    out, last = [], 0
+    for k, t in enumerate(toks):
+        if t.kind == 'id' and t.text == old and not (k > 0 and toks[k - 1].text in ('.', '::')):
+            out.append(text[last:t.a]); out.append(new); last = t.b
+    out.append(text[last:])
+    return ''.join(out)
+
+def _count_ident(text, names):
+    return sum(1 for t in tokenize(text) if t.kind == 'id' and t.text in names)
+
+def apply_rules(text, rules, log, where='', protect=()):
     """rules: list of (rule_id, pattern_text, replacement_text, opts).  Applies every rule everywhere
     (leftmost first, restarting after each application; a replacement must not re-match its own
     pattern).  Each application is logged.  opts: {'min': n} -> at least n applications required."""
@@ -472,9 +545,19 @@ def apply_rules(text, rules, log, where=''):
                 vals = {}
                 for k, v in env.items():
                     vals[k] = text[toks[v[0]].a:toks[v[1] - 1].b] if isinstance(v, tuple) else v
+                # `$B{c=self}`: the bound text with the free identifier c renamed (inlining a closure body)
+                for mm in re.finditer(r'(\$[A-Za-z]\w*)\{(\w+)=(\w+)\}', new):
+                    if mm.group(1) in vals:
+                        new = new.replace(mm.group(0), _subst_ident(vals[mm.group(1)], mm.group(2), mm.group(3)))
                 for k in sorted(vals, key=len, reverse=True):
                     new = new.replace(k, vals[k])
                 a, b = toks[i].a, toks[end - 1].b
+                if protect and not (rules[idx][3] or {}).get('allow'):
+                    # a rewrite may move protected identifiers around but never delete one: the statements the
+                    # unit is about cannot be dropped by a reduction rule
+                    if _count_ident(new, protect) < _count_ident(text[a:b], protect):
+                        raise ScanError('rule %s `%s` would delete a protected identifier (%s) in %s: %s' % (
+                            rid, rules[idx][1], ', '.join(protect), where, ' '.join(text[a:b].split())[:160]))
                 log.append(dict(rule=rid, where=where, before=text[a:b], after=new))
                 text = text[:a] + new + text[b:]
                 counts[idx] += 1
